@@ -451,6 +451,7 @@ func (cr *CheckRun) CheckTwins(entries []CorpusEntry, corpusDir string) {
 			e.PostEncode = func() { tagProps(e, "C14") }
 			sub.VerifyFunc(e, ce.Name, filter, nil)
 		}
+		sub.CheckTimeCodecs(job)
 		sub.Prop = "C02"
 		sub.CheckWrites(job)
 		sub.Prop = "C10"
